@@ -159,7 +159,11 @@ void h_execute(void)
 #ifdef H_API
 void h_api(void)
 {
+#ifdef CMV_API_N
+    setup(CMV_API_N);
+#else
     setup(3);
+#endif
     const int k = nondet_int(); ASSUME(k >= 0 && k < NP);
 #ifdef CMV_OP
     const int op = CMV_OP;
